@@ -61,7 +61,7 @@ def gen_script(rng, case, maxops=24, p_op=0.5):
             elif o == "P": ops.append(("P", rng.randrange(nsc)))
             elif o == "O": ops.append(("O", 0))
             elif o == "Q": ops.append(("Q", 0))
-            elif o == "A": ops.append(("A", rng.randint(0, 1)))
+            elif o == "A": ops.append(("A", rng.choice((0, 0, 1, 1, 2, 3))))   # "a non-zero argument": not only 1
             elif o == "N": ops.append(("N", rng.choice((0, 1, 3, 40))))     # the user sets the line number
             elif o == "R": ops.append(("R", 0)); break
             elif o == "T": ops.append(("T", 0)); break
